@@ -44,6 +44,18 @@ def compile_all(cases, chunk=25):
     return out
 
 
+def driver_retry(ck, requests, tries=12, wait_s=20):
+    """ck.driver, tolerant of the executable being relinked by a concurrent build"""
+    import time
+    for i in range(tries):
+        try:
+            return ck.driver(requests)
+        except (RuntimeError, OSError) as e:
+            if i == tries - 1 or ('missing' not in str(e) and 'No such file' not in str(e) and 'Text file busy' not in str(e)):
+                raise
+            time.sleep(wait_s)
+
+
 def compile_one(specs):
     v = fe_fuzz.classify([tuple(s) for s in specs])
     if v['k'] == 'spec':
@@ -397,7 +409,7 @@ def suite_params(ck, report='C01', cap=None):
     with concurrent.futures.ProcessPoolExecutor(max_workers=WORKERS) as ex:
         for res in ex.map(_params_run, chunks):
             real.extend(res)
-    replies = ck.driver([r for r in reqs if r is not None])
+    replies = driver_retry(ck, [r for r in reqs if r is not None])
     it = iter(replies)
     n_soft = 0
     for (e, ctx), rq, rv in zip(cases, reqs, real):
@@ -439,7 +451,7 @@ def suite_params(ck, report='C01', cap=None):
             ck.agree('fe.params.theorem')
         if report == 'C01' and not void_field:
             if rv['out'] == 'ok' and not mv['legal']:
-                shape = hole_shape(e, rq)
+                shape = hole_shape(e, rq, mv)
                 ck.failing_input('C01: an illegal type argument list is accepted: %s' % e,
                                  {'kind': 'accepted', 'rule': 'A20', 'shape': shape},
                                  {'specs': [['ns.stone', params_spec(e, ctx)]], 'expr': e, 'expect': 'refused',
@@ -458,19 +470,16 @@ def _nested_crash(t):
     return any('ty' in a for a in t['pos']) or any('ty' in a for _k, a in t['kw'])
 
 
-def hole_shape(expr, rq):
-    """coarse class of an accepted illegal argument list (signature of the finding)"""
-    t = rq['ty']
-    k = t['k']
-    if k in ('List', 'Map') and any(('ty' not in a and 'user' not in a) for a in t['pos']):
-        return 'element-not-a-type'
-    if k == 'List':
-        return 'non-integral-length'
-    if k == 'String':
-        return 'non-string-pattern'
-    if k in ('Int32', 'Int64', 'UInt32', 'UInt64', 'Float32', 'Float64'):
-        return 'bound-beyond-far-end-of-width'
-    return 'other'
+HOLE_NAMES = ['element-not-a-type', 'non-integral-length', 'non-string-pattern', 'bound-beyond-far-end-of-width']
+
+
+def hole_shape(expr, rq, mv):
+    """class of an accepted illegal argument list (signature of the finding): the named holes of the model
+    (`hitsHole`, Props/C01.lean) or, when none applies, the type kind -- an acceptance the model does not explain"""
+    named = [n for n, hit in zip(HOLE_NAMES, mv.get('holes') or []) if hit]
+    if named:
+        return '+'.join(named)
+    return 'unexplained:' + rq['ty']['k']
 
 
 # ================================================================================================ fe.names
@@ -582,13 +591,13 @@ def names_legal(files):
 
 def suite_names(ck, report='C01', n=None):
     rng = ck.rng
-    n = n or ck.scale(2500, 20000)
+    n = n or ck.scale(1500, 20000)
     cases = [list(s) for s in NAMES_SEEDS]
     while len(cases) < n:
         cases.append(names_case(rng))
     specs = [names_render(c) for c in cases]
     real = compile_all([[tuple(s) for s in sp] for sp in specs])
-    replies = ck.driver([{'op': 'fe.names', 'files': c} for c in cases])
+    replies = driver_retry(ck, [{'op': 'fe.names', 'files': c} for c in cases])
     for c, sp, rv, mv in zip(cases, specs, real, replies):
         ck.case(('fe.names', repr(c)), nontrivial=sum(len(f['items']) for f in c) > 1)
         out = {'ok': 'ok', 'spec': 'spec', 'crash': 'crash'}[rv['k']]
@@ -749,7 +758,7 @@ def suite_valid(ck, n_models=None):
     """every generated model under two layouts must compile"""
     from harness import specgen
     rng = ck.rng
-    n = n_models or ck.scale(150, 3000)
+    n = n_models or ck.scale(100, 3000)
     models = _gen_models(rng, n)
     cases, meta = [], []
     for mi, m in enumerate(models):
@@ -793,7 +802,7 @@ def suite_violations(ck, n_models=None, per_rule=None, report='C01'):
     """rule x site x model: one injected violation must be refused with InvalidSpec"""
     from harness import specgen, inject
     rng = ck.rng
-    n = n_models or ck.scale(24, 300)
+    n = n_models or ck.scale(16, 300)
     k = per_rule or ck.scale(2, 10)
     models = _gen_models(rng, n)
     base_ok = compile_all([[tuple(f) for f in specgen.render(m, None)] for m in models])
